@@ -32,17 +32,25 @@ var errUnexpectedToken = errors.New("decoder: unexpected token")
 // and lets the choice explorer pick one applicable public-API action, always returning the
 // offset the callee reported.
 type composed struct {
-	c        *eng.Chooser
-	shared   rjson.Buffer
-	vr       rjson.ValueReader
-	scratch  []byte // one scratch buffer shared by all ReadString/shared calls of this decoder
-	partial  bool   // some value was skipped rather than read
-	usedFast bool   // SkipValueFast was used (non-validating)
+	c       *eng.Chooser
+	shared  rjson.Buffer
+	vr      rjson.ValueReader
+	scratch []byte // one scratch buffer shared by all ReadString/shared calls of this decoder
+	partial bool   // some value was skipped rather than read
+	// strat, when set, replaces the choice explorer: a fixed decoding style (index into names)
+	strat    func(tt rjson.TokenType, names []string, depth int) int
+	depth    int
+	usedFast bool // SkipValueFast was used (non-validating)
 	actions  []string
 }
 
-func (d *composed) pick(names ...string) string {
-	a := names[d.c.Choose(len(names))]
+func (d *composed) pick(tt rjson.TokenType, names ...string) string {
+	var a string
+	if d.strat != nil {
+		a = names[d.strat(tt, names, d.depth)]
+	} else {
+		a = names[d.c.Choose(len(names))]
+	}
 	d.actions = append(d.actions, a)
 	return a
 }
@@ -67,7 +75,7 @@ func (d *composed) value(data []byte, inHandler bool) (interface{}, int, error) 
 	if inHandler {
 		common = append(common, "return0")
 	}
-	with := func(first ...string) string { return d.pick(append(first, common...)...) }
+	with := func(first ...string) string { return d.pick(tt, append(first, common...)...) }
 	var act string
 	switch tt {
 	case rjson.NullType:
@@ -132,6 +140,8 @@ func (d *composed) value(data []byte, inHandler bool) (interface{}, int, error) 
 	case "Handle/own":
 		buf = &rjson.Buffer{}
 	}
+	d.depth++
+	defer func() { d.depth-- }()
 	if tt == rjson.ArrayStartType {
 		arr := []interface{}{}
 		p, err := rjson.HandleArrayValues(data, rjson.ArrayValueHandlerFunc(func(d2 []byte) (int, error) {
@@ -257,6 +267,8 @@ func c08(r *eng.Run) {
 	r.Set("rule", "E2 x choice: every JSON text with <= N nodes over a leaf/key menu (two whitespace styles) and every distance-1 corruption of the smaller ones; for each text the stateless choice explorer enumerates every decoder of the composition family (per value: typed Read*/Decode*, SkipValue, SkipValueFast, return 0 inside a handler, nested Handle*Values with shared/own/nil buffer, ValueReader.ReadValue, ReadValue), complete for <= maxComplete choice points, else <= 2 deviations from the default. states = distinct texts, transitions = decoder executions. Oracle: SkipValue's offset and ReadValue's tree on the same text; validating decoders must fail where direct decoding fails.")
 	r.Sample(map[string]interface{}{"kind": "text+decoder", "text": `{"a":[true,"a"]}`, "decoder": []string{"Handle/shared", "Handle/nil", "DecodeBool", "return0"}})
 	r.Assume("the decoder family is the stated menu; typed integer readers are not part of it (a decoder choosing ReadInt64 for 1.5 fails by its own choice)")
+	c08E1(r)
+	r.Set("rule", r.Cov["rule"].(string)+" E1 pass: BFS over product states (skipValue configuration x ValueReader frame stack x reference automaton) x all 256 bytes, plus pumping and the long-run / string-shape / depth-site families; on every node each of the uniform decoding styles (every public-API action in every position) is run and compared with the REFERENCE decoder: same final offset wherever the first value is well-formed, same tree when everything was read, failure of every validating style where it is malformed.")
 }
 
 func devBound(maxComplete int) int {
@@ -264,4 +276,135 @@ func devBound(maxComplete int) int {
 		return 1
 	}
 	return 2
+}
+
+// ---- E1 pass: decoding styles on every parser configuration, against the reference ----------
+
+// prefer returns a strategy that picks, per token kind, the first listed action that is on the
+// menu (index 0 = the menu's default otherwise). top applies at depth 0, nested below.
+type stylePrefs struct {
+	name              string
+	scalar            []string // for null / bool / number / string tokens
+	topCont, nestCont []string // for containers at depth 0 / deeper
+}
+
+func (sp stylePrefs) strat() func(tt rjson.TokenType, names []string, depth int) int {
+	find := func(prefs, names []string) int {
+		for _, p := range prefs {
+			for i, n := range names {
+				if n == p {
+					return i
+				}
+			}
+		}
+		return 0
+	}
+	return func(tt rjson.TokenType, names []string, depth int) int {
+		if tt == rjson.ObjectStartType || tt == rjson.ArrayStartType {
+			if depth == 0 {
+				return find(sp.topCont, names)
+			}
+			return find(sp.nestCont, names)
+		}
+		return find(sp.scalar, names)
+	}
+}
+
+// decodingStyles are the uniform decoders run on every E1 node: each public-API action occurs in
+// at least one of them in every position (top-level scalar, member of a top-level container,
+// member of a nested container).
+var decodingStyles = []stylePrefs{
+	{name: "typed-readers/handle-shared"},
+	{name: "skip-scalars/handle-nil", scalar: []string{"SkipValue"}, topCont: []string{"Handle/nil"}, nestCont: []string{"Handle/nil"}},
+	{name: "return0-scalars/handle-own", scalar: []string{"return0", "SkipValue"}, topCont: []string{"Handle/own"}, nestCont: []string{"Handle/own"}},
+	{name: "decode-forms/skip-nested", scalar: []string{"DecodeBool", "DecodeFloat64", "DecodeString", "return0"}, topCont: []string{"Handle/own"}, nestCont: []string{"SkipValue"}},
+	{name: "bytes+shared-scratch/valuereader-nested", scalar: []string{"ReadString/shared-scratch", "DecodeFloat64"}, topCont: []string{"Handle/shared"}, nestCont: []string{"ValueReader.ReadValue"}},
+	{name: "stringbytes/readvalue-nested", scalar: []string{"ReadStringBytes", "DecodeString/shared-scratch"}, topCont: []string{"Handle/own"}, nestCont: []string{"ReadValue"}},
+	{name: "typed/return0-nested", topCont: []string{"Handle/shared"}, nestCont: []string{"return0"}},
+	{name: "skip-everything", scalar: []string{"SkipValue"}, topCont: []string{"SkipValue"}, nestCont: []string{"SkipValue"}},
+	{name: "fast-scalars/handle-shared", scalar: []string{"SkipValueFast"}, topCont: []string{"Handle/shared"}, nestCont: []string{"Handle/shared"}},
+	{name: "typed/fast-nested", topCont: []string{"Handle/nil"}, nestCont: []string{"SkipValueFast"}},
+}
+
+var activeStyles = decodingStyles
+
+// checkStyles runs every decoding style on w and compares with the reference decoder: wherever
+// the reference finds a well-formed first value every style must finish exactly at its end (and
+// rebuild the reference tree when it read everything); where the first value is malformed or
+// incomplete every style built from validating actions must fail.
+func checkStyles(w []byte, a *ref.PDA) (string, bool, string, string) {
+	want, end, ok := ref.Decode(w) // well-formed and all numbers in range
+	rok, rend := a.FirstValue()    // well-formed
+	if ok && (!rok || rend != end) {
+		return "reference-decoder!=reference-automaton", true, okStr(rok, rend), okStr(ok, end)
+	}
+	for _, st := range activeStyles {
+		d := &composed{strat: st.strat()}
+		v, p, err := d.value(w, false)
+		switch {
+		case ok && err != nil:
+			return "style-fails/" + st.name, false, fmt.Sprintf("p=%d nil (well-formed first value)", end), fmt.Sprintf("%v: %s", d.actions, errStr(err))
+		case rok && err == nil && p != rend:
+			return "final-offset/" + st.name, false, fmt.Sprintf("p=%d", rend), fmt.Sprintf("%v: p=%d", d.actions, p)
+		case ok && !d.partial && !ref.SameTree(v, want):
+			return "tree/" + st.name, false, treeStr(want), fmt.Sprintf("%v: %s", d.actions, treeStr(v))
+		case !rok && err == nil && !d.usedFast:
+			return "validating-style-accepts/" + st.name, false, "error (first value malformed or incomplete)", fmt.Sprintf("%v: p=%d nil", d.actions, p)
+		case rok && !ok && err == nil && !d.partial:
+			return "full-style-accepts-out-of-range-number/" + st.name, false, "error", fmt.Sprintf("%v: p=%d nil", d.actions, p)
+		case err == nil && (p < 0 || p > len(w)):
+			return "offset-range/" + st.name, false, "0<=p<=len", fmt.Sprint(p)
+		}
+	}
+	return "", false, "", ""
+}
+
+func c08E1(r *eng.Run) {
+	D, K := 2, 1
+	sp := e1Spec{
+		entry:    "decoding styles",
+		probe:    func(w []byte) { rjson.SkipValue(w, nil) },
+		probes:   []func(w []byte){func(w []byte) { rjson.ReadValue(w) }},
+		check:    checkStyles,
+		noWindow: true,
+	}
+	if !r.Thorough() {
+		sp.pumpN, sp.pumpTail = 9, 6
+	}
+	styles := decodingStyles
+	if !r.Thorough() {
+		// quick: the skip machine's configuration alone keys the search, and the two styles that are
+		// plain SkipValue / SkipValueFast-on-scalars calls (decided by C02 / C11) are left out
+		sp.probes = nil
+		styles = nil
+		for _, st := range decodingStyles {
+			if st.name != "skip-everything" && st.name != "fast-scalars/handle-shared" && st.name != "return0-scalars/handle-own" {
+				styles = append(styles, st)
+			}
+		}
+	}
+	activeStyles = styles
+	res := runE1(r, sp, D, K, r.Pick(60000, 600000))
+	r.Set("e1_bfs_nodes", res.st.Transitions)
+	r.Set("e1_pump_nodes", res.pumped)
+	r.Set("e1_states", res.st.States)
+	r.Set("e1_nodes", res.st.Transitions+res.pumped)
+	r.Set("e1_style_executions", (res.st.Transitions+res.pumped)*len(activeStyles))
+	r.Set("e1_styles", len(activeStyles))
+	n := runFamily(r, "long-runs", sp.entry, longRunFamily(false), checkStyles)
+	n += runFamily(r, "string-shapes", sp.entry, stringShapeFamily(), checkStyles)
+	n += runFamily(r, "depth-sites", sp.entry, depthSiteFamily(40), checkStyles)
+	var hard [][]byte
+	for _, x := range hardNumbers() {
+		hard = append(hard, []byte(x), []byte("["+x+" ]"), []byte(`{"a":[`+x+`],"b":`+x+`}`))
+	}
+	for _, x := range hardStrings() {
+		hard = append(hard, []byte(x), []byte("["+x+","+x+"]"), []byte(`{`+x+`:[`+x+`]}`))
+	}
+	n += runFamily(r, "hard-numbers-and-strings", sp.entry, hard, checkStyles)
+	r.Add("states", res.st.States)
+	r.Add("transitions", (res.st.Transitions+res.pumped+n)*len(activeStyles))
+	r.Add("traces_validated_against_impl", (res.validated+n)*len(activeStyles))
+	r.Add("distinct_nontrivial", res.st.States)
+	r.Add("evaluations", (res.st.Transitions+res.pumped)*len(activeStyles))
 }
